@@ -195,10 +195,10 @@ Definition trim_dquotes : string -> string := trim_p (Ascii.eqb dquote).     (* 
 Definition trim_bquotes : string -> string := trim_p (Ascii.eqb bquote).
 
 (* ---------------------------------------------------- the six expressions *)
-(* `{([\w|-]+)\W*:\W*([^}]+)}` *)
+(* `{([\w|-]+)\W*:\s*([^}]+)}`   (the second class was \W before the repair of K_rest_header_value_trim) *)
 Definition kv_key_c (c : ascii) : bool := is_word c || Ascii.eqb c "|" || Ascii.eqb c "-".
 Definition re_kv : re :=
-  RSeq [ch "{"; RGroup 1 (RPlusC true kv_key_c); RStarC true not_word; ch ":"; RStarC true not_word;
+  RSeq [ch "{"; RGroup 1 (RPlusC true kv_key_c); RStarC true not_word; ch ":"; RStarC true is_space_re;
         RGroup 2 (RPlusC true (not_c "}")); ch "}"].
 
 (* (?im)^shoot:\W+(get|post|put|patch|delete)\(GROUP2\)\W*;?\W*$   with GROUP2 = any number of non-newline bytes, greedy *)
